@@ -321,8 +321,10 @@ def run(repo: Repo) -> Result:
                         shape = text(v0.test) in has_else and isinstance(v0.orelse, ast.Constant) and v0.orelse.value == 0
                         body0 = v0.body
                     else:
-                        # the same conditional as a statement: rendered under `self.default`
-                        shape = bool(cc & has_else)
+                        # the same conditional as a statement: rendered under `self.default` — and
+                        # under nothing else besides the empty-sequence test (an extra conjunct
+                        # would leave some empty sequences without their else block)
+                        shape = bool(cc & has_else) and not (cc - has_else - zero)
                         body0 = v0
                     ok = ok and shape and bool(cc & zero) and any(isinstance(c0, ast.Call) and callee_name(c0) in ("render", "render_async") and text(call_recv(c0)) == "self.default" for c0 in ast.walk(body0))
             ok = ok and saw_loop and saw_else
